@@ -956,6 +956,28 @@ def parse_http_response(raw: bytes):
     return status, hdr, body
 
 
+def _second_response(raw: bytes) -> bool:
+    """Did the server write anything behind the first complete response (another response, an error page ...)?"""
+    import io
+    from http.client import HTTPResponse
+
+    class _KeepOpen(io.BytesIO):
+        def close(self):
+            pass
+    fp = _KeepOpen(raw)
+
+    class _S:
+        def makefile(self, mode, *a, **kw):  # noqa: ARG002
+            return fp
+    try:
+        resp = HTTPResponse(_S(), method='POST')
+        resp.begin()
+        resp.read()
+    except Exception:  # noqa: BLE001
+        return False
+    return raw[fp.tell():].strip() != b''      # anything at all behind the first complete response
+
+
 def classify_body(body, tpl: Template, status: int) -> tuple[str, str]:
     """-> (class, detail): proper | fault | empty | soap_other | text.
 
@@ -1145,7 +1167,7 @@ class Executor:
         t0 = time.perf_counter()
         how, info = self.in_thread(job)
         elapsed = time.perf_counter() - t0
-        actual = {'status': 0, 'body': 'none', 'escaped': 'none', 'spin': False, 'timeout': False,
+        actual = {'status': 0, 'body': 'none', 'extra_response': False, 'escaped': 'none', 'spin': False, 'timeout': False,
                   'unbounded_read': False, 'expanded': False, 'resolver_calls': 0, 'socket_attempts': 0,
                   'state_same': True, 'handled': False, 'validated': False, 'detail': '', 'where': '',
                   'dispatch': self.current,
@@ -1167,6 +1189,7 @@ class Executor:
         status, body = 0, None
         if case['via'] == 'handler':
             parsed = parse_http_response(info['raw_response'])
+            actual['extra_response'] = _second_response(info['raw_response'])
             if parsed is not None:
                 status, _hdr, body = parsed
                 actual['status'] = status
